@@ -270,6 +270,16 @@ def register(M):
         from .models import UNIT_SECONDS
         if args and isinstance(args[0], (int, Fr)) and len(args) > 1:
             return Sc(X.num(Fr(args[0]) * UNIT_SECONDS[args[1]]), 'm8', 'ns')
+        if args and isinstance(args[0], str) and len(args) == 1 and not kw:
+            import re
+            m = re.fullmatch(r'\s*(-?[0-9]*\.?[0-9]+(?:[eE][-+]?[0-9]+)?)\s*(ns|us|ms|s|S|sec|second|seconds|min|T|m|h|H|D|d|days?|hours?|minutes?)\s*', args[0])
+            if not m:
+                raise AbsRaise(ExcVal('ValueError', (f'unit abbreviation w/o a number / invalid Timedelta string {args[0]!r}',)), node)
+            unit = {'ns': Fr(1, 10 ** 9), 'us': Fr(1, 10 ** 6), 'ms': Fr(1, 1000), 's': 1, 'S': 1, 'sec': 1, 'second': 1, 'seconds': 1, 'min': 60, 'T': 60, 'm': 60,
+                    'minute': 60, 'minutes': 60, 'h': 3600, 'H': 3600, 'hour': 3600, 'hours': 3600, 'D': 86400, 'd': 86400, 'day': 86400, 'days': 86400}[m.group(2)]
+            return Sc(X.num(Fr(m.group(1)) * unit), 'm8', 'ns')
+        if args and isinstance(args[0], Sc) and args[0].dtype == 'm8' and len(args) == 1 and not kw:
+            return args[0]
         total = Fr(0)
         for k, u in (('seconds', 1), ('minutes', 60), ('hours', 3600), ('days', 86400), ('milliseconds', Fr(1, 1000))):
             if k in kw:
@@ -486,6 +496,10 @@ def register2(M):
     def searchsorted(interp, arr, value, side, node):
         import bisect
         xs = conc_list(interp, arr, node, 'searchsorted')
+        vv = as_vec(interp, value, node) if not isinstance(value, (int, Fr, float, Sc)) else None
+        if vv is not None:
+            # an array of values: one insertion point each
+            return Vec.fresh([El(X.num(searchsorted(interp, arr, Sc(e.d, vv.dtype, vv.unit), side, node)), False) for e in vv.els()], kind='nd', dtype='i8')
         o = as_operand(value)
         if o is None or not X.is_num(o[1]):
             raise AnalysisError('searchsorted needs a concrete value', node)
